@@ -18,6 +18,17 @@ def one(m):
             finally:
                 shutil.rmtree(d, ignore_errors=True)
             return None
+        if os.path.basename(m) == "SchedMT.tla":
+            import tempfile, shutil
+            d = tempfile.mkdtemp(prefix="sany-")
+            try:
+                open(os.path.join(d, "MTData.tla"), "w").write(
+                    "---- MODULE MTData ----\nEXTENDS Integers, Sequences, TLC\nMT_Runs == <<>>\n====\n")
+                open(os.path.join(d, "RunMT.tla"), "w").write("---- MODULE RunMT ----\nEXTENDS SchedMT\n====\n")
+                tlc.sany(os.path.join(d, "RunMT.tla"))
+            finally:
+                shutil.rmtree(d, ignore_errors=True)
+            return None
         tlc.sany(m)
         return None
     except Exception as e:
